@@ -97,6 +97,13 @@ fn main() {
             let _ = std::fs::remove_dir_all(&scratch);
             c
         }
+        "dump-index" => match world::dump_index_child(&PathBuf::from(&args[2]), &PathBuf::from(&args[3]), &PathBuf::from(&args[4])) {
+            Ok(()) => 0,
+            Err(e) => {
+                eprintln!("{}", e);
+                2
+            }
+        },
         "collide" => collide::run(args.get(2).map(|s| s == "tail").unwrap_or(false)),
         "world" => {
             // debugging aid: build the data directory of a scenario's first run into <dir> and print the argv
